@@ -513,17 +513,23 @@ def gen_world(rng, tier):
         cfg["nsteps"] = min(cfg["nsteps"], 14)
     cfg["nmax"] = nmax
     datasets = []
+    dt = "int64" if intdata and rng.random() < 0.3 else "float64"
+    glitch = bool(rng.random() < 0.04)
     n0 = int(rng.integers(4, nmax + 1)) if nmax <= 40 else int(rng.integers(nmax // 2, nmax + 1))
     for did in range(int(rng.integers(2, 5))):
         n = n0 if rng.random() < 0.5 else int(rng.integers(4 if nmax <= 40 else 70, nmax + 1))
         x = gen_x(rng, n, intdata)
-        datasets.append({"id": did, "family": 0, "container": container, "dtype": "float64", "index": {"kind": ik[0], "start": ik[1]}, "columns": [col], "values": [[float(v)] for v in x]})
+        if not intdata and glitch and n > 6:
+            # one huge (finite) value early in the series: segment statistics have to be
+            # taken on the segment's own rows, not as differences of global running sums
+            x[int(rng.integers(0, max(1, n // 4)))] = float(rng.choice([1e15, -1e17, 1e18]))
+        datasets.append({"id": did, "family": 0, "container": container, "dtype": dt, "index": {"kind": ik[0], "start": ik[1]}, "columns": [col], "values": [[float(v)] for v in x]})
     if "bad_data" in cfg["faults"]:
         did = len(datasets)
         base = datasets[0]
         v = [list(r) for r in base["values"]]
         v[int(rng.integers(len(v)))][0] = None
-        datasets.append(dict(base, id=did, bad="nan", values=v))
+        datasets.append(dict(base, id=did, bad="nan", dtype="float64", values=v))
         datasets.append(dict(base, id=did + 1, bad="short", values=[list(r) for r in base["values"][:1]]))
     U = gen_U(rng, nmax)
     stat = STATS[int(rng.integers(len(STATS)))]
@@ -666,9 +672,33 @@ def extra_checks(seed, tier, args):
                             out = _result_slim(res)
                             results.append(out)
                             return results, {"exhaustive_script_space": {"n_max": nmax, "cases": total, "complete": False}}
-    agg = {"violations": [], "stats": {"steps": 3 * total, "comparisons": 2 * total, "probes": {"exhaustive_script_cases": total}}, "digest": "", "signature": "exhaustive", "nontrivial": True, "run": -1, "nsteps": 2 * total}
+    # many segments on long integer series (label types that are too narrow, vectorised
+    # paths that only differ from the loop beyond a size)
+    many = 0
+    for n, step, dtp in ((300, 2, "float64"), (800, 3, "int64"), (1500, 2, "float64"), (700, 1, "int64")):
+        x = np.round(rng.normal(scale=2.0, size=n))
+        ds = {"id": 0, "family": 0, "container": "df", "dtype": dtp, "index": {"kind": "range", "start": 0}, "columns": ["a"], "values": [[float(v)] for v in x]}
+        cp = list(range(step, n, step))
+        for stat, lo, hi in (("np.mean", -0.5, 0.5), ("np.median", 0.0, 0.0), ("np.max", -1.0, 2.0)):
+            trace = {
+                "property": "C17",
+                "seed": int(seed),
+                "run": -2,
+                "tier": tier,
+                "config": {"many_segments": [n, step]},
+                "datasets": [ds],
+                "U": {"__cls__": "ScriptedDetector", "params": {"cpts": {"__tuple__": cp}}},
+                "A": {"__cls__": "StatThresholdAnomaliser", "params": {"change_detector": {"__ref__": "U"}, "stat": {"__fn__": stat}, "stat_lower": lo, "stat_upper": hi}},
+                "steps": [{"op": "A_fit", "d": 0}, {"op": "A_predict", "d": 0}, {"op": "A_transform", "d": 0}],
+            }
+            res = replay(trace)
+            many += 1
+            if res["violations"]:
+                results.append(_result_slim(res))
+                return results, {"exhaustive_script_space": {"n_max": nmax, "cases": total, "complete": False}}
+    agg = {"violations": [], "stats": {"steps": 3 * (total + many), "comparisons": 2 * (total + many), "probes": {"exhaustive_script_cases": total, "many_segment_cases": many}}, "digest": "", "signature": "exhaustive", "nontrivial": True, "run": -1, "nsteps": 2 * total}
     results.append(agg)
-    return results, {"exhaustive_script_space": {"n_max": nmax, "cases": total, "complete": True, "what": "all changepoint subsets of 1..n-1 x {mean, median, max} x 3 bound patterns (bounds equal to extreme segment statistics; lower == upper; nothing flagged) on integer series"}}
+    return results, {"exhaustive_script_space": {"n_max": nmax, "cases": total, "complete": True, "what": "all changepoint subsets of 1..n-1 x {mean, median, max} x 3 bound patterns (bounds equal to extreme segment statistics; lower == upper; nothing flagged) on integer series; plus 12 cases with 150-750 segments on series of 300-1500 rows (float64 and int64 data)"}}
 
 
 def _result_slim(res):
